@@ -6,6 +6,8 @@ CONSTANTS Times <- McTimesQ
  QMenu <- McQMenu
  MaxBlocks = 3
  HashCoversSig = FALSE
+ Encs = {"c"}
+ CarrierKeyed = FALSE
  PruneLife = 1800
  ReloadLife = 1800
 INVARIANTS TypeOK GuardSound NoDangling LiveCached WindowSufficient TracerComplete CarryEquiv
